@@ -7,6 +7,8 @@ thread executing the corresponding well-locked program to completion (`runThread
 
   reset
   join <i> | leave <i>                registerConnection of a fresh connection i / i.Disconnect → teardown
+  dup <i>                             a second login with i's name and UUID while i is online: refused, the refused
+                                      connection is torn down (unregisters nothing): `r=<admitted> n=<PlayerCount()>`
   sadd <i> | srem <i>                 players.add / players.remove on the lobby
   regsrv <k> | unregsrv <k>           Proxy.Register / Proxy.Unregister
   players | count | servers | slen | srange     the listing / counting APIs (sorted); the harness scrambles every
@@ -92,6 +94,20 @@ def dstep (d : DState) (c : Case) : DState × String × String :=
       | some m => ({ d with reg := m, sReg := if c.impl == "r=1" then i :: d.sReg else d.sReg }, "r=1",
                    if d.sReg.contains i then judgeNat c.impl 0 "join" else judgeNat c.impl 1 "join")
       | none => bad d
+    | none => bad d
+  | "dup", [a] =>
+    -- a refused second login of an online player: registerConnection's section writes nothing, the refused
+    -- connection's teardown is a write section that deletes nothing; `n` = PlayerCount() afterwards
+    match a.toNat? with
+    | some i =>
+      if !has d.reg i then bad d else
+      match write d.reg [], runProg d.reg sizeProg with
+      | some m, some _ =>
+        let want := "r=0 n=" ++ toString d.sReg.length
+        ({ d with reg := m }, "r=0 n=" ++ toString m.length,
+         if c.impl == want then "ok"
+         else if c.impl.startsWith "r=0 " then "viol:count-wrong" else "viol:duplicate-login-admitted")
+      | _, _ => bad d
     | none => bad d
   | "leave", [a] =>
     match a.toNat? with
